@@ -112,9 +112,18 @@ class Rule:
         return cls.from_spec(json_like)
 
     def to_json_like(self, *args, **kwargs):
+        cast = self.cast
+        if cast:
+            # type names, as understood by `from_spec`: {<from type>: <to type>}
+            dtype_names = {v: k for k, v in CAST_DTYPE_LOOKUP.items()}
+            cast_to = {(k[0], v): k[1] for k, v in CAST_LOOKUP.items()}
+            cast = {
+                dtype_names[cast_from]: dtype_names[cast_to[(cast_from, func)]]
+                for cast_from, func in cast.items()
+            }
         out = {
             "condition": self.condition.to_json_like(),
-            "cast": self.cast,
+            "cast": cast,
             "path": self.path.to_json_like(),
         }
         if "shared_data" in kwargs:
